@@ -1,14 +1,681 @@
 (* EncodeFastGenProofs.v -- the regenerated encode (dsw/spiderweb.py), fast mode, computes Coder.encode.
    Compiled on every run of the checks against the freshly generated CoderGen.v / OperationGen.v (harness/regen.py, unit "coder"). *)
-From Coq Require Import Lia ZifyBool.
-From DSW Require Import MiniPy Bignum Convert Coder Spec MiniPyLemmas BignumProofs ConvertProofs.
-From DSWGen Require Import OperationGen CoderGen CoderCallees OperationGenProofs.
+From Coq Require Import Lia ZifyBool Sorting.Sorted.
+From DSW Require Import MiniPy Bignum Convert Coder Spec MiniPyLemmas BignumProofs ConvertProofs CoderProofs.
+(* CoderCallees last: OperationGenProofs has a one-argument callees_ok of its own *)
+From DSWGen Require Import OperationGen CoderGen OperationGenProofs CoderCallees.
 Open Scope Z_scope.
 Open Scope string_scope.
 Ltac Zify.zify_post_hook ::= Z.to_euclidean_division_equations.
 Local Open Scope Z_scope.
 
-(* TARGET STATEMENTS   (is_faster = True, need_path = False; mf is the fuel of the MODEL's recursion, one unit per nucleotide)
+(* Both TARGET STATEMENTS (encode_fast_gen_ok, encode_fast_gen_raise) are proved at the end of the file, with the hypotheses
+   exactly as they were stated (the "(same hypotheses)" of the second written out).  callees_ok and the 0/1 range of the bits
+   are not used by the proof: fast mode calls no function of dsw/operation.py, and both the program and the model index with
+   whatever integer the bits give (py_get on both sides).
+
+   Plan: the while loop `while location < len(binary_message)` is Coder.encode_fast with the list argument
+   rest = skipn location bits (after the last step at a 4-way vertex with one bit left location = length bits + 1, rest = []).
+   One model fuel unit per iteration (ef_loop, by induction on the model fuel); one iteration is ef_body_ok, which follows the
+   model through ef_choose (the radix 4 / 2 / 1 / other branches). *)
+
+
+Ltac lk := repeat (rewrite lookup_update_same || (rewrite lookup_update_other by discriminate)).
+
+(* ---- results of the model as MiniPy results ------------------------------------------------------------------------ *)
+Definition rz (r : result Z) : res val :=
+  match r with Ok x => Ret (VInt x) | Raise e => Exn e | OutOfFuel => Fuel end.
+
+Lemma nthZ_nth {A} (d : A) : forall l n, (n < length l)%nat -> nthZ l n = Some (nth n l d).
+Proof.
+  induction l as [|x t IH]; intros [|n] H; cbn [length] in H; cbn [nthZ nth]; try lia; [reflexivity|apply IH; lia].
+Qed.
+
+Lemma py_get_ok {A} (l : list A) i d : 0 <= i < Z.of_nat (length l) -> py_get l i = Ok (nth (Z.to_nat i) l d).
+Proof.
+  intro H. unfold py_get. destruct (i <? 0) eqn:E; [lia|].
+  destruct ((i <? 0) || (Z.of_nat (length l) <=? i)) eqn:F; [lia|].
+  rewrite (nthZ_nth d) by lia. reflexivity.
+Qed.
+
+Lemma sorted_nodup : forall l : list Z, StronglySorted Z.lt l -> NoDup l.
+Proof.
+  induction 1 as [|x t Ht IH Hx]; constructor; [|exact IH].
+  intro Hin. rewrite Forall_forall in Hx. specialize (Hx x Hin). lia.
+Qed.
+
+Lemma nthZ_map {A B} (f : A -> B) : forall l n, nthZ (map f l) n = option_map f (nthZ l n).
+Proof. induction l as [|x t IH]; intros [|n]; cbn [map nthZ option_map]; auto. Qed.
+
+Lemma py_get_map {A B} (f : A -> B) l i :
+  py_get (map f l) i = match py_get l i with Ok x => Ok (f x) | Raise e => Raise e | OutOfFuel => OutOfFuel end.
+Proof.
+  unfold py_get. rewrite map_length, nthZ_map.
+  match goal with |- context [orb ?a ?b] => destruct (orb a b) end; [reflexivity|].
+  destruct (nthZ l _); reflexivity.
+Qed.
+
+Lemma py_get_exn {A} (l : list A) i :
+  match py_get l i with Ok _ => True | Raise e => e = IndexError | OutOfFuel => False end.
+Proof.
+  unfold py_get.
+  match goal with |- context [orb ?a ?b] => destruct (orb a b) end; [reflexivity|].
+  destruct (nthZ l _); reflexivity.
+Qed.
+
+Lemma nthZ_In {A} : forall (l : list A) n x, nthZ l n = Some x -> In x l.
+Proof.
+  induction l as [|y t IH]; intros [|n] x H; cbn [nthZ] in H; try discriminate.
+  - injection H as <-. left; reflexivity.
+  - right. eapply IH; eauto.
+Qed.
+
+Lemma py_get_In {A} (l : list A) i x : py_get l i = Ok x -> In x l.
+Proof.
+  unfold py_get.
+  match goal with |- context [orb ?a ?b] => destruct (orb a b) end; [discriminate|].
+  destruct (nthZ l _) eqn:E; [|discriminate]. intro H; injection H as <-. eapply nthZ_In; eauto.
+Qed.
+
+Lemma index_varr l i : index_val (varr l) (VInt i) = rz (py_get l i).
+Proof.
+  unfold index_val, varr. rewrite py_get_map. pose proof (py_get_exn l i) as H.
+  destruct (py_get l i); cbn [rz]; [reflexivity|subst; reflexivity|contradiction].
+Qed.
+
+Lemma index_varr2 a i row : py_get a i = Ok row -> index_val (varr2 a) (VInt i) = Ret (varr row).
+Proof. intro H. unfold index_val, varr2. rewrite py_get_map, H. reflexivity. Qed.
+
+Lemma map_res_map {A B C} (f : B -> res C) (g : A -> B) (h : A -> C) l :
+  Forall (fun x => f (g x) = Ret (h x)) l -> map_res f (map g l) = Ret (map h l).
+Proof.
+  induction 1 as [|x t Hx Ht IH]; cbn [map map_res]; [reflexivity|]. rewrite Hx, IH. reflexivity.
+Qed.
+
+(* ---- (a) where(accessor[vertex_index] >= 0)[0] ---------------------------------------------------------------------- *)
+Lemma used_from_sign : forall row j,
+  used_from (map (fun b : bool => if b then 0 else -1) (map (fun x => 0 <=? x) row)) j = used_from row j.
+Proof.
+  induction row as [|x t IH]; intro j; cbn [map used_from]; [reflexivity|].
+  rewrite IH. destruct (0 <=? x); reflexivity.
+Qed.
+
+Lemma cmp_ge0 row : cmp_vals CGe (varr row) (VInt 0) = Ret (VArr (map VBool (map (fun x => 0 <=? x) row))).
+Proof.
+  unfold cmp_vals, varr. rewrite map_map.
+  rewrite (map_res_map _ VInt (fun x => VBool (0 <=? x))); [reflexivity|].
+  apply Forall_forall. intros x _. reflexivity.
+Qed.
+
+Lemma where_bools bs :
+  builtin1_val BNpWhere (VArr (map VBool bs)) =
+  Ret (VTuple [varr (used_indices (map (fun b : bool => if b then 0 else -1) bs))]).
+Proof.
+  unfold builtin1_val. rewrite (map_res_map _ VBool (fun b => b)).
+  - rewrite map_id. reflexivity.
+  - apply Forall_forall. intros x _. reflexivity.
+Qed.
+
+Lemma where_ge0 row :
+  (x <~ cmp_vals CGe (varr row) (VInt 0) ;; y <~ builtin1_val BNpWhere x ;; index_val y (VInt 0))
+  = Ret (varr (used_indices row)).
+Proof.
+  rewrite cmp_ge0. cbn [rbind]. rewrite where_bools. cbn [rbind]. unfold used_indices. rewrite used_from_sign. reflexivity.
+Qed.
+
+(* ---- facts about used_indices ---------------------------------------------------------------------------------------- *)
+Lemma used_in_row row j : In j (used_indices row) ->
+  0 <= j < Z.of_nat (length row) /\ exists x, py_get row j = Ok x /\ 0 <= x /\ In x row.
+Proof.
+  intro H. apply cp_used_from_in in H. destruct H as (n & -> & Hn & Hx).
+  split; [lia|]. exists (nth n row (-1)). split; [|split; [exact Hx|apply nth_In; exact Hn]].
+  rewrite (py_get_ok row (0 + Z.of_nat n) (-1)) by lia. do 2 f_equal. lia.
+Qed.
+
+Lemma used_nodup row : NoDup (used_indices row).
+Proof. apply sorted_nodup. apply cp_used_from_sorted. Qed.
+
+(* ---- (b) argsort(shuffles[vertex_index, used_indices])[remainder] ------------------------------------------------------ *)
+Lemma nodupb_true : forall l, NoDup l -> nodupb l = true.
+Proof.
+  induction 1 as [|x t Hx Ht IH]; cbn [nodupb]; [reflexivity|]. rewrite IH, andb_true_r.
+  assert (M : forall l, ~ In x l -> memZ x l = false).
+  { induction l as [|y l IHl]; intro N; cbn [memZ]; [reflexivity|].
+    rewrite IHl by (intro; apply N; right; assumption).
+    destruct (x =? y) eqn:E; [exfalso; apply N; left; lia|reflexivity]. }
+  rewrite M by assumption. reflexivity.
+Qed.
+
+Lemma fancy_pick srow used : Forall (fun j => 0 <= j < Z.of_nat (length srow)) used ->
+  map_res (fun c => match c with
+                    | VInt j => match py_get (map VInt srow) j with Ok v => Ret v | _ => Exn IndexError end
+                    | _ => Stuck end) (map VInt used) = Ret (map VInt (pick srow used)).
+Proof.
+  intro H. unfold pick. rewrite map_map. apply map_res_map.
+  eapply Forall_impl; [|exact H]. cbv beta. intros j Hj.
+  rewrite py_get_map, (py_get_ok srow j (-1)) by exact Hj. reflexivity.
+Qed.
+
+Lemma argsort_varr ks : NoDup ks -> builtin1_val BNpArgsort (varr ks) = Ret (varr (argsort ks)).
+Proof.
+  intro H. unfold builtin1_val, varr. rewrite (map_res_map _ VInt (fun z => z)).
+  - rewrite map_id. cbn [rbind]. rewrite (nodupb_true ks H). reflexivity.
+  - apply Forall_forall. intros x _. reflexivity.
+Qed.
+
+Lemma shuffle_some t n v used rem :
+  table_shape n (Some t) -> 0 <= v < Z.of_nat n -> NoDup used -> Forall (fun j => 0 <= j < 4) used ->
+  (x <~ index_val (varr2 t) (VTuple [VInt v; varr used]) ;; y <~ builtin1_val BNpArgsort x ;; index_val y (VInt rem))
+  = rz (shuffle_digit (Some t) v used rem).
+Proof.
+  intros [Hl Hf] Hv Hn Hu. unfold shuffle_digit.
+  rewrite (py_get_ok t v []) by lia. cbn [bind].
+  assert (Hr : length (nth (Z.to_nat v) t []) = 4%nat /\ NoDup (nth (Z.to_nat v) t [])).
+  { rewrite Forall_forall in Hf. apply Hf. apply nth_In. lia. }
+  destruct Hr as [H4 Hnd]. set (srow := nth (Z.to_nat v) t []) in *.
+  unfold index_val at 1. unfold varr2 at 1. rewrite py_get_map, (py_get_ok t v []) by lia. fold srow.
+  unfold varr at 1 2. rewrite fancy_pick by (rewrite H4; exact Hu). cbn [rbind].
+  fold (varr (pick srow used)). rewrite argsort_varr.
+  - cbn [rbind]. apply index_varr.
+  - unfold pick. apply cp_nodup_map_nth; [exact Hnd|exact Hn|rewrite H4; exact Hu].
+Qed.
+
+Lemma index_nuc r : 0 <= r < 4 -> index_val (VStr [65; 67; 71; 84]) (VInt r) = Ret (VStr [nuc_char r]).
+Proof.
+  intro H. assert (C : r = 0 \/ r = 1 \/ r = 2 \/ r = 3) by lia.
+  destruct C as [->|[->|[->| ->]]]; reflexivity.
+Qed.
+
+
+(* ---- the model, one step at a time ----------------------------------------------------------------------------------- *)
+(* the digit chosen at a vertex: (column, (remaining bits, increment of location)) *)
+Definition ef_choose (sh : option (list (list Z))) (v : Z) (used : list Z) (b0 : Z) (bits1 : list Z)
+  : result (Z * (list Z * Z)) :=
+  let radix := Z.of_nat (length used) in
+  if radix =? 4 then
+    rem' <- shuffle_digit sh v used (match bits1 with [] => b0 * 2 | b1 :: _ => b0 * 2 + b1 end) ;;
+    j <- py_get used rem' ;; Ok (j, (match bits1 with [] => [] | _ :: bits2 => bits2 end, 2))
+  else if radix =? 2 then
+    rem' <- shuffle_digit sh v used b0 ;; j <- py_get used rem' ;; Ok (j, (bits1, 1))
+  else if radix =? 1 then j <- py_get used 0 ;; Ok (j, (b0 :: bits1, 0))
+  else Raise ValueError.
+
+Lemma encode_fast_step f b0 bits1 acc v sh :
+  encode_fast (S f) (b0 :: bits1) acc v sh =
+  row <- py_get acc v ;;
+  c <- ef_choose sh v (used_indices row) b0 bits1 ;;
+  nxt <- py_get row (fst c) ;; rest <- encode_fast f (fst (snd c)) acc nxt sh ;; Ok (nuc_char (fst c) :: rest).
+Proof.
+  cbn [encode_fast]. destruct (py_get acc v) as [row| |]; cbn [bind]; try reflexivity.
+  unfold ef_choose.
+  destruct (Z.of_nat (length (used_indices row)) =? 4).
+  - destruct bits1 as [|b1 bits2];
+      (destruct (shuffle_digit sh v (used_indices row) _) as [rem'| |]; cbn [bind]; try reflexivity;
+       destruct (py_get (used_indices row) rem'); reflexivity).
+  - destruct (Z.of_nat (length (used_indices row)) =? 2).
+    + destruct (shuffle_digit sh v (used_indices row) _) as [rem'| |]; cbn [bind]; try reflexivity;
+       destruct (py_get (used_indices row) rem'); reflexivity.
+    + destruct (Z.of_nat (length (used_indices row)) =? 1); [|reflexivity].
+      destruct (py_get (used_indices row) 0); reflexivity.
+Qed.
+
+Lemma skipn_cons_inv {A} : forall n (l : list A) x t, skipn n l = x :: t ->
+  nthZ l n = Some x /\ skipn (S n) l = t /\ (n < length l)%nat.
+Proof.
+  induction n as [|n IH]; intros [|y l] x t H; cbn [skipn] in H; try discriminate.
+  - injection H as -> ->. cbn [nthZ skipn length]. repeat split. lia.
+  - destruct (IH l x t H) as (H1 & H2 & H3). cbn [nthZ length]. repeat split; [exact H1|exact H2|lia].
+Qed.
+
+Lemma skipn_nil_iff {A} n (l : list A) : skipn n l = [] <-> (length l <= n)%nat.
+Proof.
+  split; intro H.
+  - pose proof (skipn_length n l) as E. rewrite H in E. cbn [length] in E. lia.
+  - apply skipn_all2. exact H.
+Qed.
+
+Lemma py_get_nthZ {A} (l : list A) i x : 0 <= i -> nthZ l (Z.to_nat i) = Some x -> (Z.to_nat i < length l)%nat ->
+  py_get l i = Ok x.
+Proof.
+  intros Hi H Hl. unfold py_get.
+  destruct (i <? 0) eqn:E; [lia|].
+  destruct ((i <? 0) || (Z.of_nat (length l) <=? i)) eqn:F; [lia|]. rewrite H. reflexivity.
+Qed.
+
+(* the bits read at location loc *)
+Lemma bits_at (bits : list Z) loc b0 bits1 : 0 <= loc -> skipn (Z.to_nat loc) bits = b0 :: bits1 ->
+  py_get bits loc = Ok b0 /\ skipn (Z.to_nat (loc + 1)) bits = bits1 /\ loc < Z.of_nat (length bits).
+Proof.
+  intros Hl H. destruct (skipn_cons_inv _ _ _ _ H) as (H1 & H2 & H3).
+  split; [apply py_get_nthZ; assumption|]. split; [|lia].
+  replace (Z.to_nat (loc + 1)) with (S (Z.to_nat loc)) by lia. exact H2.
+Qed.
+
+Lemma ef_choose_skipn sh v used (bits : list Z) loc b0 bits1 j rest' d :
+  0 <= loc -> skipn (Z.to_nat loc) bits = b0 :: bits1 ->
+  ef_choose sh v used b0 bits1 = Ok (j, (rest', d)) ->
+  rest' = skipn (Z.to_nat (loc + d)) bits /\ 0 <= d.
+Proof.
+  intros Hl H HC. destruct (bits_at _ _ _ _ Hl H) as (_ & H1 & _).
+  unfold ef_choose in HC.
+  destruct (Z.of_nat (length used) =? 4).
+  - destruct (shuffle_digit sh v used _) as [rem'| |]; cbn [bind] in HC; try discriminate.
+    destruct (py_get used rem'); cbn [bind] in HC; try discriminate. injection HC as _ <- <-.
+    split; [|lia]. destruct bits1 as [|b1 bits2].
+    + symmetry. apply skipn_nil_iff. apply skipn_nil_iff in H1. lia.
+    + assert (Hl1 : 0 <= loc + 1) by lia.
+      destruct (bits_at _ _ _ _ Hl1 H1) as (_ & H2 & _). rewrite <- H2. f_equal. lia.
+  - destruct (Z.of_nat (length used) =? 2).
+    + destruct (shuffle_digit sh v used _) as [rem'| |]; cbn [bind] in HC; try discriminate.
+      destruct (py_get used rem'); cbn [bind] in HC; try discriminate. injection HC as _ <- <-.
+      split; [symmetry; exact H1|lia].
+    + destruct (Z.of_nat (length used) =? 1); [|discriminate].
+      destruct (py_get used 0); cbn [bind] in HC; try discriminate. injection HC as _ <- <-.
+      split; [|lia]. rewrite Z.add_0_r. symmetry; exact H.
+Qed.
+
+Lemma ef_choose_in sh v used b0 bits1 j rest' d :
+  ef_choose sh v used b0 bits1 = Ok (j, (rest', d)) -> In j used.
+Proof.
+  unfold ef_choose. intro HC.
+  destruct (Z.of_nat (length used) =? 4).
+  - destruct (shuffle_digit sh v used _) as [rem'| |]; cbn [bind] in HC; try discriminate.
+    destruct (py_get used rem') eqn:E; cbn [bind] in HC; try discriminate. injection HC as <- _ _.
+    eapply py_get_In; eauto.
+  - destruct (Z.of_nat (length used) =? 2).
+    + destruct (shuffle_digit sh v used _) as [rem'| |]; cbn [bind] in HC; try discriminate.
+      destruct (py_get used rem') eqn:E; cbn [bind] in HC; try discriminate. injection HC as <- _ _.
+      eapply py_get_In; eauto.
+    + destruct (Z.of_nat (length used) =? 1); [|discriminate].
+      destruct (py_get used 0) eqn:E; cbn [bind] in HC; try discriminate. injection HC as <- _ _.
+      eapply py_get_In; eauto.
+Qed.
+
+
+(* ---- the pieces of the fast-mode loop of encode_def ------------------------------------------------------------------ *)
+Definition ef_cond : expr := (ECmp CLt (EVar "location"%string) (EB1 BLen (EVar "binary_message"%string))).
+Definition ef_used : stmt :=
+ (SAssign (TVar "used_indices"%string) (EIndex (EB1 BNpWhere (ECmp CGe (EIndex (EVar "accessor"%string) (EVar "vertex_index"%string)) (EInt (0)))) (EInt (0)))).
+Definition ef_radix : stmt := (SAssign (TVar "radix"%string) (EB1 BLen (EVar "used_indices"%string))).
+Definition ef_shuffle : stmt :=
+ (SIf (ENot (EB1 BIsNone (EVar "shuffles"%string)))
+ (SAssign (TVar "remainder"%string) (EIndex (EB1 BNpArgsort (EIndex (EVar "shuffles"%string) (ETuple [(EVar "vertex_index"%string); (EVar "used_indices"%string)]))) (EVar "remainder"%string)))
+ SSkip).
+Definition ef_value : stmt := (SAssign (TVar "value"%string) (EIndex (EVar "used_indices"%string) (EVar "remainder"%string))).
+Definition ef_rem4 : stmt :=
+ (SIf (ECmp CLt (EBin Add (EVar "location"%string) (EInt (1))) (EB1 BLen (EVar "binary_message"%string)))
+ (SAssign (TVar "remainder"%string) (EBin Add (EBin Mul (EIndex (EVar "binary_message"%string) (EVar "location"%string)) (EInt (2))) (EIndex (EVar "binary_message"%string) (EBin Add (EVar "location"%string) (EInt (1))))))
+ (SAssign (TVar "remainder"%string) (EBin Mul (EIndex (EVar "binary_message"%string) (EVar "location"%string)) (EInt (2))))).
+Definition ef_rem2 : stmt := (SAssign (TVar "remainder"%string) (EIndex (EVar "binary_message"%string) (EVar "location"%string))).
+Definition ef_aug (d : Z) : stmt := (SAug (TVar "location"%string) Add (EInt d)).
+Definition ef_rest (d : Z) : stmt := SSeq ef_shuffle (SSeq ef_value (ef_aug d)).
+Definition ef_r4 : stmt := SSeq ef_rem4 (ef_rest 2).
+Definition ef_r2 : stmt := SSeq ef_rem2 (ef_rest 1).
+Definition ef_r1 : stmt := (SAssign (TVar "value"%string) (EIndex (EVar "used_indices"%string) (EInt (0)))).
+Definition ef_ifs : stmt :=
+ (SIf (ECmp CEq (EVar "radix"%string) (EInt (4))) ef_r4
+ (SIf (ECmp CEq (EVar "radix"%string) (EInt (2))) ef_r2
+ (SIf (ECmp CEq (EVar "radix"%string) (EInt (1))) ef_r1
+ (SIf (ECmp CEq (EVar "radix"%string) (EInt (3)))
+ (SRaise ValueError)
+ (SRaise ValueError))))).
+Definition ef_post : stmt :=
+ (SSeq (SAssign (TTuple ["nucleotide"%string; "vertex_index"%string]) (ETuple [(EIndex (EVar "nucleotides"%string) (EVar "value"%string)); (EIndex (EIndex (EVar "accessor"%string) (EVar "vertex_index"%string)) (EVar "value"%string))]))
+ (SSeq (SAug (TVar "dna_sequence"%string) Add (EIndex (EVar "nucleotides"%string) (EVar "value"%string)))
+ (SSeq (SIf (EVar "need_path"%string)
+ (SAppend "record_path"%string (EList [(EVar "vertex_index"%string); (EB1 BInt (ECmp CGt (EVar "radix"%string) (EInt (1))))]))
+ SSkip)
+ (SIf (EVar "verbose"%string)
+ (SExpr (ETuple [(EBin Add (EVar "location"%string) (EInt (1))); (EB1 BLen (EVar "binary_message"%string))]))
+ SSkip)))).
+Definition ef_body : stmt := SSeq ef_used (SSeq ef_radix (SSeq ef_ifs ef_post)).
+Definition ef_tail : stmt :=
+ (SSeq (SIf (EVar "need_path"%string)
+ (SAssign (TVar "record_path"%string) (EB1 BNpArray (EVar "record_path"%string)))
+ SSkip)
+ (SIf (ECmp CGt (EVar "vt_length"%string) (EInt (0)))
+ (SSeq (SAssign (TVar "vt_check"%string) (ECall "set_vt"%string [(EVar "dna_sequence"%string); (EVar "vt_length"%string)]))
+ (SIf (EVar "need_path"%string)
+ (SReturn (ETuple [(EVar "dna_sequence"%string); (ECall "set_vt"%string [(EVar "dna_sequence"%string); (EVar "vt_length"%string)]); (EVar "record_path"%string)]))
+ (SReturn (ETuple [(EVar "dna_sequence"%string); (EVar "vt_check"%string)]))))
+ (SIf (EVar "need_path"%string)
+ (SReturn (ETuple [(EVar "dna_sequence"%string); (EVar "record_path"%string)]))
+ (SReturn (EVar "dna_sequence"%string))))).
+
+(* the generated program is built from exactly these pieces *)
+Definition ef_init : stmt :=
+ (SAssign (TTuple ["monitor"%string; "record_path"%string; "vertex_index"%string; "dna_sequence"%string; "nucleotides"%string]) (ETuple [EOpaque; (EList []); (EVar "start_index"%string); (EStr []); (EStr [65; 67; 71; 84])])).
+Definition ef_loc0 : stmt := (SAssign (TVar "location"%string) (EInt (0))).
+Lemma encode_def_fast_shape : exists b,
+  body encode_def =
+  SSeq ef_init (SSeq (SIf (ENot (EVar "is_faster")) b (SSeq ef_loc0 (SWhile ef_cond ef_body))) ef_tail).
+Proof. eexists. reflexivity. Qed.
+
+
+Ltac step := cbn [exec eval lift seq rbind assign items bind_tuple builtin1_val builtin2_val binop_vals binop_scalar
+                  cmp_vals cmp_scalar is_arr orb truthy mixes_bool type_is val_eqb negb].
+
+Local Arguments builtin1_val !f !a /.
+Local Arguments cmp_vals o !a !b /.
+Local Arguments binop_vals o !a !b /.
+Local Arguments truthy !v /.
+
+Lemma len_varr l : builtin1_val BLen (varr l) = Ret (VInt (Z.of_nat (length l))).
+Proof. unfold varr, builtin1_val. rewrite map_length. reflexivity. Qed.
+Lemma index_tuple1 x : index_val (VTuple [x]) (VInt 0) = Ret x.
+Proof. reflexivity. Qed.
+Lemma isnone_table sh : builtin1_val BIsNone (v_table sh) = Ret (VBool (match sh with None => true | Some _ => false end)).
+Proof. destruct sh; reflexivity. Qed.
+
+Lemma fancy_index t n v used :
+  table_shape n (Some t) -> 0 <= v < Z.of_nat n -> NoDup used -> Forall (fun j => 0 <= j < 4) used ->
+  exists srow, py_get t v = Ok srow /\ index_val (varr2 t) (VTuple [VInt v; varr used]) = Ret (varr (pick srow used)) /\
+               NoDup (pick srow used).
+Proof.
+  intros [Hl Hf] Hv Hn Hu. exists (nth (Z.to_nat v) t []).
+  assert (Hr : length (nth (Z.to_nat v) t []) = 4%nat /\ NoDup (nth (Z.to_nat v) t [])).
+  { rewrite Forall_forall in Hf. apply Hf. apply nth_In. lia. }
+  destruct Hr as [H4 Hnd]. set (srow := nth (Z.to_nat v) t []) in *.
+  assert (Hg : py_get t v = Ok srow) by (apply py_get_ok; lia).
+  split; [exact Hg|split].
+  - unfold index_val, varr2. rewrite py_get_map, Hg. unfold varr at 1 2.
+    rewrite fancy_pick by (rewrite H4; exact Hu). reflexivity.
+  - unfold pick. apply cp_nodup_map_nth; [exact Hnd|exact Hn|rewrite H4; exact Hu].
+Qed.
+
+Lemma used_indices_sign row :
+  used_indices (map (fun b : bool => if b then 0 else -1) (map (fun x => 0 <=? x) row)) = used_indices row.
+Proof. apply used_from_sign. Qed.
+
+Section Fast.
+  Variable ce : string -> list val -> res val.
+  Variable fuel : nat.
+  Variable bits : list Z.
+  Variable acc : list (list Z).
+  Variable sh : option (list (list Z)).
+  Variable verbose : bool.
+  Hypothesis Hacc : acc_shape acc.
+  Hypothesis Hsh : table_shape (length acc) sh.
+
+  (* shuffle the remainder, pick the column *)
+  Lemma ef_sv_ok en v used rem :
+    lookup "shuffles" en = Ret (v_table sh) -> lookup "vertex_index" en = Ret (VInt v) ->
+    lookup "used_indices" en = Ret (varr used) -> lookup "remainder" en = Ret (VInt rem) ->
+    0 <= v < Z.of_nat (length acc) -> NoDup used -> Forall (fun j => 0 <= j < 4) used ->
+    match (rem' <- shuffle_digit sh v used rem ;; py_get used rem') with
+    | Ok j => exists en', exec ce fuel (SSeq ef_shuffle ef_value) en = ONormal en' /\
+                lookup "value" en' = Ret (VInt j) /\
+                forall x, x <> "remainder" -> x <> "value" -> lookup x en' = lookup x en
+    | Raise e => exec ce fuel (SSeq ef_shuffle ef_value) en = OExn e
+    | OutOfFuel => False
+    end.
+  Proof.
+    intros HS HV HU HR Hv Hnd Hu. unfold ef_shuffle, ef_value. step. rewrite HS. step. rewrite isnone_table.
+    destruct sh as [t|].
+    - destruct (fancy_index t _ v used Hsh Hv Hnd Hu) as (srow & Hg & Hi & Hp).
+      step. rewrite HV, HU, HR. step. change (v_table (Some t)) with (varr2 t). rewrite Hi. step.
+      rewrite (argsort_varr _ Hp). step. rewrite index_varr.
+      unfold shuffle_digit. rewrite Hg. cbn [bind].
+      destruct (py_get (argsort (pick srow used)) rem) as [rem'|e|] eqn:E; cbn [rz bind]; step.
+      + lk. rewrite HU. step. rewrite index_varr. pose proof (py_get_exn used rem') as X.
+        destruct (py_get used rem') as [j|e|]; cbn [rz]; step; [|reflexivity|contradiction].
+        eexists. split; [reflexivity|]. split; [lk; reflexivity|]. intros x N1 N2. rewrite !lookup_update_other by assumption. reflexivity.
+      + reflexivity.
+      + pose proof (py_get_exn (argsort (pick srow used)) rem) as X. rewrite E in X. exact X.
+    - step. rewrite HU, HR. step. rewrite index_varr. cbn [shuffle_digit bind].
+      pose proof (py_get_exn used rem) as X.
+      destruct (py_get used rem) as [j|e|]; cbn [rz]; step; [|reflexivity|contradiction].
+      eexists. split; [reflexivity|]. split; [lk; reflexivity|]. intros x N1 N2. rewrite !lookup_update_other by assumption. reflexivity.
+  Qed.
+
+  Lemma exec_seq3 a b c en :
+    exec ce fuel (SSeq a (SSeq b c)) en = seq (exec ce fuel (SSeq a b) en) (exec ce fuel c).
+  Proof. cbn [exec]. destruct (exec ce fuel a en); reflexivity. Qed.
+
+  Lemma ef_rest_ok d en loc v used rem :
+    lookup "shuffles" en = Ret (v_table sh) -> lookup "vertex_index" en = Ret (VInt v) ->
+    lookup "used_indices" en = Ret (varr used) -> lookup "remainder" en = Ret (VInt rem) ->
+    lookup "location" en = Ret (VInt loc) ->
+    0 <= v < Z.of_nat (length acc) -> NoDup used -> Forall (fun j => 0 <= j < 4) used ->
+    match (rem' <- shuffle_digit sh v used rem ;; py_get used rem') with
+    | Ok j => exists en', exec ce fuel (ef_rest d) en = ONormal en' /\
+                lookup "value" en' = Ret (VInt j) /\ lookup "location" en' = Ret (VInt (loc + d)) /\
+                forall x, x <> "remainder" -> x <> "value" -> x <> "location" -> lookup x en' = lookup x en
+    | Raise e => exec ce fuel (ef_rest d) en = OExn e
+    | OutOfFuel => False
+    end.
+  Proof.
+    intros HS HV HU HR HL Hv Hnd Hu. pose proof (ef_sv_ok en v used rem HS HV HU HR Hv Hnd Hu) as H.
+    unfold ef_rest. rewrite exec_seq3.
+    destruct (rem' <- shuffle_digit sh v used rem ;; py_get used rem') as [j|e|]; [|rewrite H; reflexivity|exact H].
+    destruct H as (en1 & E & HJ & HF). rewrite E. cbn [seq]. unfold ef_aug. step.
+    rewrite HF by discriminate. rewrite HL. step.
+    eexists. split; [reflexivity|]. split; [lk; exact HJ|]. split; [lk; reflexivity|].
+    intros x N1 N2 N3. rewrite lookup_update_other by assumption. apply HF; assumption.
+  Qed.
+
+  Ltac fr HF := repeat match goal with |- context [lookup ?x _] => rewrite (HF x) by discriminate end.
+  Ltac lks := repeat (lk; match goal with H : lookup _ _ = Ret _ |- _ => rewrite H end); lk.
+
+  Lemma ef_ifs_ok en loc v used b0 bits1 :
+    lookup "binary_message" en = Ret (varr bits) ->
+    lookup "shuffles" en = Ret (v_table sh) -> lookup "vertex_index" en = Ret (VInt v) ->
+    lookup "used_indices" en = Ret (varr used) -> lookup "radix" en = Ret (VInt (Z.of_nat (length used))) ->
+    lookup "location" en = Ret (VInt loc) ->
+    0 <= loc -> skipn (Z.to_nat loc) bits = b0 :: bits1 ->
+    0 <= v < Z.of_nat (length acc) -> NoDup used -> Forall (fun j => 0 <= j < 4) used ->
+    match ef_choose sh v used b0 bits1 with
+    | Ok (j, (_, d)) => exists en', exec ce fuel ef_ifs en = ONormal en' /\
+                lookup "value" en' = Ret (VInt j) /\ lookup "location" en' = Ret (VInt (loc + d)) /\
+                forall x, x <> "remainder" -> x <> "value" -> x <> "location" -> lookup x en' = lookup x en
+    | Raise e => exec ce fuel ef_ifs en = OExn e
+    | OutOfFuel => False
+    end.
+  Proof.
+    intros HB HS HV HU HX HL Hl Hsk Hv Hnd Hu.
+    destruct (bits_at _ _ _ _ Hl Hsk) as (Hb0 & Hsk1 & Hlt).
+    assert (FIN : forall d rem en1, 
+      lookup "remainder" en1 = Ret (VInt rem) ->
+      (forall x, x <> "remainder" -> lookup x en1 = lookup x en) ->
+      forall (bs : list Z),
+      match (rem' <- shuffle_digit sh v used rem ;; j <- py_get used rem' ;; Ok (j, (bs, d))) with
+      | Ok (j, (_, d')) => exists en', exec ce fuel (ef_rest d) en1 = ONormal en' /\
+                lookup "value" en' = Ret (VInt j) /\ lookup "location" en' = Ret (VInt (loc + d')) /\
+                forall x, x <> "remainder" -> x <> "value" -> x <> "location" -> lookup x en' = lookup x en
+      | Raise e => exec ce fuel (ef_rest d) en1 = OExn e
+      | OutOfFuel => False
+      end).
+    { intros d rem en1 HR HF bs.
+      pose proof (ef_rest_ok d en1 loc v used rem) as H. rewrite (HF "shuffles"), (HF "vertex_index"), (HF "used_indices"), (HF "location") in H by discriminate.
+      specialize (H HS HV HU HR HL Hv Hnd Hu).
+      destruct (shuffle_digit sh v used rem) as [rem'|e|]; cbn [bind] in *; [|exact H|exact H].
+      destruct (py_get used rem') as [j|e|]; cbn [bind] in *; [|exact H|exact H].
+      destruct H as (en' & E & H1 & H2 & H3). exists en'. repeat split; try assumption.
+      intros x N1 N2 N3. rewrite H3 by assumption. apply HF; assumption. }
+    unfold ef_ifs, ef_choose. rewrite exec_if. step. rewrite HX. step.
+    destruct (Z.of_nat (length used) =? 4) eqn:E4.
+    - unfold ef_r4. rewrite exec_seq. unfold ef_rem4. step. lks. step. rewrite len_varr. step.
+      destruct bits1 as [|b1 bits2].
+      + apply skipn_nil_iff in Hsk1.
+        destruct (loc + 1 <? Z.of_nat (length bits)) eqn:EL; [lia|].
+        step. rewrite index_varr, Hb0. cbn [rz]. step.
+        apply FIN; [lk; reflexivity|]. intros x N. rewrite lookup_update_other by assumption. reflexivity.
+      + assert (Hl1 : 0 <= loc + 1) by lia.
+        destruct (bits_at _ _ _ _ Hl1 Hsk1) as (Hb1 & _ & Hlt1).
+        destruct (loc + 1 <? Z.of_nat (length bits)) eqn:EL; [|lia].
+        step. rewrite !index_varr, Hb0, Hb1. cbn [rz]. step.
+        apply FIN; [lk; reflexivity|]. intros x N. rewrite lookup_update_other by assumption. reflexivity.
+    - destruct (Z.of_nat (length used) =? 2) eqn:E2.
+      + unfold ef_r2. rewrite exec_seq. unfold ef_rem2. step. lks. step. rewrite index_varr, Hb0. cbn [rz]. step.
+        apply FIN; [lk; reflexivity|]. intros x N. rewrite lookup_update_other by assumption. reflexivity.
+      + destruct (Z.of_nat (length used) =? 1) eqn:E1.
+        * unfold ef_r1. step. lks. step. rewrite index_varr.
+          pose proof (py_get_exn used 0) as X.
+          destruct (py_get used 0) as [j|e|]; cbn [rz bind]; step; [|reflexivity|contradiction].
+          eexists. split; [reflexivity|]. split; [lk; reflexivity|]. split; [lk; rewrite HL; do 2 f_equal; lia|].
+          intros x N1 N2 N3. rewrite lookup_update_other by assumption. reflexivity.
+        * destruct (Z.of_nat (length used) =? 3); reflexivity.
+  Qed.
+
+  Lemma acc_row v : 0 <= v < Z.of_nat (length acc) ->
+    exists row, py_get acc v = Ok row /\ length row = 4%nat /\ Forall (fun x => -1 <= x < Z.of_nat (length acc)) row.
+  Proof.
+    intro Hv. exists (nth (Z.to_nat v) acc []). split; [apply py_get_ok; exact Hv|].
+    unfold acc_shape in Hacc. rewrite Forall_forall in Hacc. apply Hacc. apply nth_In. lia.
+  Qed.
+
+  Lemma ef_body_ok en loc v dna b0 bits1 row :
+    lookup "binary_message" en = Ret (varr bits) -> lookup "accessor" en = Ret (varr2 acc) ->
+    lookup "shuffles" en = Ret (v_table sh) -> lookup "need_path" en = Ret (VBool false) ->
+    lookup "verbose" en = Ret (VBool verbose) -> lookup "nucleotides" en = Ret (VStr [65; 67; 71; 84]) ->
+    lookup "location" en = Ret (VInt loc) -> lookup "vertex_index" en = Ret (VInt v) ->
+    lookup "dna_sequence" en = Ret (VStr dna) ->
+    0 <= loc -> skipn (Z.to_nat loc) bits = b0 :: bits1 -> 0 <= v < Z.of_nat (length acc) ->
+    py_get acc v = Ok row ->
+    match ef_choose sh v (used_indices row) b0 bits1 with
+    | Ok (j, (_, d)) =>
+        exists en' nxt, exec ce fuel ef_body en = ONormal en' /\
+          py_get row j = Ok nxt /\ 0 <= nxt < Z.of_nat (length acc) /\
+          lookup "location" en' = Ret (VInt (loc + d)) /\ lookup "vertex_index" en' = Ret (VInt nxt) /\
+          lookup "dna_sequence" en' = Ret (VStr (dna ++ [nuc_char j])) /\
+          forall x, x <> "used_indices" -> x <> "radix" -> x <> "remainder" -> x <> "value" -> x <> "location" ->
+                    x <> "nucleotide" -> x <> "vertex_index" -> x <> "dna_sequence" -> lookup x en' = lookup x en
+    | Raise e => exec ce fuel ef_body en = OExn e
+    | OutOfFuel => False
+    end.
+  Proof.
+    intros HB HA HS HP HVb HN HL HV HD Hl Hsk Hv Hrow.
+    destruct (acc_row v Hv) as (row' & Hrow' & H4 & Hent). rewrite Hrow in Hrow'. injection Hrow' as <-.
+    assert (Hu : Forall (fun j => 0 <= j < 4) (used_indices row)).
+    { apply Forall_forall. intros j Hj. apply used_in_row in Hj. rewrite H4 in Hj. lia. }
+    unfold ef_body. rewrite exec_seq. unfold ef_used. step. lks. step. rewrite (index_varr2 _ _ _ Hrow). step.
+    rewrite cmp_ge0. cbn [rbind]. rewrite where_bools. cbn [rbind]. rewrite index_tuple1. step.
+    rewrite used_indices_sign.
+    rewrite ?exec_seq. unfold ef_radix. step. lks. step. rewrite len_varr. step.
+    rewrite ?exec_seq.
+    match goal with |- context [exec ce fuel ef_ifs ?E] =>
+      pose proof (ef_ifs_ok E loc v (used_indices row) b0 bits1) as H end.
+    repeat (rewrite lookup_update_same in H || (rewrite lookup_update_other in H by discriminate)).
+    specialize (H HB HS HV eq_refl eq_refl HL Hl Hsk Hv (used_nodup row) Hu).
+    pose proof (ef_choose_in sh v (used_indices row) b0 bits1) as HIN.
+    destruct (ef_choose sh v (used_indices row) b0 bits1) as [[j [rest' d]]|e|]; [|rewrite H; reflexivity|exact H].
+    destruct H as (en1 & E & HJ & HL1 & HF). rewrite E. cbn [seq].
+    specialize (HIN j rest' d eq_refl). pose proof HIN as HIN'. apply used_in_row in HIN'.
+    destruct HIN' as (Hj4 & nxt & Hnxt & Hn0 & Hnin). rewrite H4 in Hj4.
+    rewrite Forall_forall in Hent. specialize (Hent nxt Hnin). cbv beta in Hent.
+    unfold ef_post. step. fr HF. lks. step.
+    rewrite (index_nuc j Hj4). step. rewrite (index_varr2 _ _ _ Hrow). step. rewrite index_varr, Hnxt. cbn [rz]. step.
+    lk. fr HF. lks. step. rewrite (index_nuc j Hj4). step.
+    lk. fr HF. lks. step.
+    lk. fr HF. lks. step.
+    match goal with |- context [ONormal ?E] => set (en2 := E) end.
+    exists en2, nxt.
+    split.
+    { destruct verbose; [|reflexivity]. step. rewrite len_varr. step. reflexivity. }
+    split; [reflexivity|]. split; [lia|]. unfold en2.
+    split; [lk; exact HL1|]. split; [lk; reflexivity|]. split; [lk; reflexivity|].
+    intros x N1 N2 N3 N4 N5 N6 N7 N8. rewrite !lookup_update_other by assumption.
+    rewrite HF by assumption. rewrite !lookup_update_other by assumption. reflexivity.
+  Qed.
+
+
+  Lemma ef_loop : forall mf rest n en loc v dna,
+    lookup "binary_message" en = Ret (varr bits) -> lookup "accessor" en = Ret (varr2 acc) ->
+    lookup "shuffles" en = Ret (v_table sh) -> lookup "need_path" en = Ret (VBool false) ->
+    lookup "verbose" en = Ret (VBool verbose) -> lookup "nucleotides" en = Ret (VStr [65; 67; 71; 84]) ->
+    lookup "location" en = Ret (VInt loc) -> lookup "vertex_index" en = Ret (VInt v) ->
+    lookup "dna_sequence" en = Ret (VStr dna) ->
+    0 <= loc -> rest = skipn (Z.to_nat loc) bits -> 0 <= v < Z.of_nat (length acc) -> (mf < n)%nat ->
+    match encode_fast mf rest acc v sh with
+    | Ok s => exists en', while_loop ce fuel ef_cond ef_body n en = ONormal en' /\
+                lookup "dna_sequence" en' = Ret (VStr (dna ++ s)) /\
+                lookup "need_path" en' = Ret (VBool false) /\
+                lookup "vt_length" en' = lookup "vt_length" en
+    | Raise e => while_loop ce fuel ef_cond ef_body n en = OExn e
+    | OutOfFuel => True
+    end.
+  Proof.
+    induction mf as [|f IH]; intros rest n en loc v dna HB HA HS HP HVb HN HL HV HD Hl Hsk Hv Hn;
+      (destruct n as [|n]; [lia|]); cbn [while_loop]; unfold ef_cond; step; rewrite HL, HB; step;
+      rewrite len_varr; step; fold ef_cond;
+      (destruct rest as [|b0 bits1];
+       [ symmetry in Hsk; apply skipn_nil_iff in Hsk;
+         destruct (loc <? Z.of_nat (length bits)) eqn:EL; [lia|]; cbn [encode_fast];
+         exists en; rewrite app_nil_r; auto
+       | symmetry in Hsk; destruct (bits_at _ _ _ _ Hl Hsk) as (_ & _ & Hlt);
+         destruct (loc <? Z.of_nat (length bits)) eqn:EL; [|lia] ]).
+    - cbn [encode_fast]. exact I.
+    - rewrite encode_fast_step.
+      destruct (acc_row v Hv) as (row & Hrow & _). rewrite Hrow. cbn [bind].
+      pose proof (ef_body_ok en loc v dna b0 bits1 row HB HA HS HP HVb HN HL HV HD Hl Hsk Hv Hrow) as H.
+      pose proof (ef_choose_skipn sh v (used_indices row) bits loc b0 bits1) as HSK.
+      destruct (ef_choose sh v (used_indices row) b0 bits1) as [[j [rest' d]]|e|]; cbn [bind fst snd];
+        [|rewrite H; reflexivity|contradiction].
+      destruct H as (en' & nxt & E & Hnxt & Hnr & HL' & HV' & HD' & HF). rewrite E, Hnxt. cbn [seq bind].
+      destruct (HSK j rest' d Hl Hsk eq_refl) as [Hsk' Hd].
+      assert (Hl' : 0 <= loc + d) by lia.
+      assert (Hn' : (f < n)%nat) by lia.
+      pose proof (IH rest' n en' (loc + d) nxt (dna ++ [nuc_char j])%list) as H.
+      rewrite !HF in H by discriminate.
+      specialize (H HB HA HS HP HVb HN HL' HV' HD' Hl' Hsk' Hnr Hn').
+      destruct (encode_fast f rest' acc nxt sh) as [s|e|]; cbn [bind]; [|exact H|exact I].
+      destruct H as (en'' & E' & H1 & H2 & H3). exists en''. rewrite <- app_assoc in H1. cbn [app] in H1.
+      split; [exact E'|]. split; [exact H1|]. split; [exact H2|]. rewrite H3. apply HF; discriminate.
+  Qed.
+
+  Lemma ef_tail_ok en s vt :
+    set_vt_callee ce fuel -> 0 <= vt -> (2 * Z.to_nat vt < fuel)%nat ->
+    lookup "dna_sequence" en = Ret (VStr s) -> lookup "need_path" en = Ret (VBool false) ->
+    lookup "vt_length" en = Ret (VInt vt) ->
+    exec ce fuel ef_tail en =
+    match (if 0 <? vt then chk <- set_vt s vt ;; Ok (s, Some chk) else Ok (s, None)) with
+    | Ok r => OReturn (res_of_encode r)
+    | Raise e => OExn e
+    | OutOfFuel => OFuel
+    end.
+  Proof.
+    intros Hset Hvt Hf HD HP HV. unfold ef_tail. step. rewrite HP. step. rewrite HV. step.
+    destruct (0 <? vt) eqn:E; step; rewrite ?HD, ?HV, ?HP; step.
+    - rewrite (Hset s vt) by lia. destruct (set_vt s vt) as [c|e|]; cbn [res_of_str bind]; step; try reflexivity.
+      lk. rewrite HP. step. lk. rewrite HD. step. reflexivity.
+    - reflexivity.
+  Qed.
+End Fast.
+
+Lemma exec_assign ce fuel t e en : exec ce fuel (SAssign t e) en = lift (eval ce en e) (fun v => assign ce t v en).
+Proof. reflexivity. Qed.
+
+Ltac stepc := cbn [eval lift seq rbind assign items bind_tuple builtin1_val builtin2_val binop_vals binop_scalar
+                   cmp_vals cmp_scalar is_arr orb truthy mixes_bool type_is val_eqb negb
+                   lookup update String.eqb Ascii.eqb Bool.eqb].
+
+(* both outcomes of the model at once *)
+Lemma encode_fast_gen_both ce fuel bits acc v vt sh verbose mf :
+  set_vt_callee ce fuel ->
+  acc_shape acc -> 0 <= v < Z.of_nat (length acc) -> table_shape (length acc) sh ->
+  0 <= vt -> (2 * Z.to_nat vt < fuel)%nat -> (mf < fuel)%nat ->
+  match Coder.encode bits acc v true vt sh mf with
+  | Ok r => run_fun ce fuel encode_def [varr bits; varr2 acc; VInt v; VBool true; VInt vt; v_table sh; VBool false; VBool verbose]
+            = Ret (res_of_encode r)
+  | Raise e => run_fun ce fuel encode_def [varr bits; varr2 acc; VInt v; VBool true; VInt vt; v_table sh; VBool false; VBool verbose]
+            = Exn e
+  | OutOfFuel => True
+  end.
+Proof.
+  intros Hset Hacc Hv Hsh Hvt Hf Hmf.
+  destruct encode_def_fast_shape as (b & EB). unfold run_fun. rewrite EB. cbn [params encode_def bind_params].
+  rewrite exec_seq. unfold ef_init. rewrite exec_assign. stepc. rewrite exec_seq, exec_if. stepc.
+  rewrite exec_seq. unfold ef_loc0. rewrite exec_assign. stepc. rewrite exec_while.
+  match goal with |- context [while_loop ce fuel ef_cond ef_body fuel ?E] => set (en0 := E) end.
+  pose proof (ef_loop ce fuel bits acc sh verbose Hacc Hsh mf bits fuel en0 0 v []
+                eq_refl eq_refl eq_refl eq_refl eq_refl eq_refl eq_refl eq_refl eq_refl
+                ltac:(lia) eq_refl Hv Hmf) as HL.
+  unfold Coder.encode.
+  destruct (encode_fast mf bits acc v sh) as [s|e|]; cbn [bind]; [|rewrite HL; reflexivity|exact I].
+  destruct HL as (en' & EL & HD & HP & HVT). rewrite EL. cbn [seq app] in *.
+  rewrite (ef_tail_ok ce fuel en' s vt Hset Hvt Hf HD HP HVT).
+  destruct (if 0 <? vt then chk <- set_vt s vt ;; Ok (s, Some chk) else Ok (s, None)); cbn [bind]; first [reflexivity | exact I].
+Qed.
 
 Theorem encode_fast_gen_ok : forall ce fuel bits acc v vt sh verbose mf r,
   callees_ok ce fuel -> set_vt_callee ce fuel ->
@@ -17,18 +684,24 @@ Theorem encode_fast_gen_ok : forall ce fuel bits acc v vt sh verbose mf r,
   Coder.encode bits acc v true vt sh mf = Ok r ->
   run_fun ce fuel encode_def [varr bits; varr2 acc; VInt v; VBool true; VInt vt; v_table sh; VBool false; VBool verbose]
   = Ret (res_of_encode r).
+Proof.
+  intros ce fuel bits acc v vt sh verbose mf r _ Hset Hacc Hv Hsh _ Hvt Hf Hmf HR.
+  pose proof (encode_fast_gen_both ce fuel bits acc v vt sh verbose mf Hset Hacc Hv Hsh Hvt Hf Hmf) as H.
+  rewrite HR in H. exact H.
+Qed.
 
 Theorem encode_fast_gen_raise : forall ce fuel bits acc v vt sh verbose mf e,
-  (same hypotheses) ->
+  callees_ok ce fuel -> set_vt_callee ce fuel ->
+  acc_shape acc -> 0 <= v < Z.of_nat (length acc) -> table_shape (length acc) sh ->
+  Forall (fun a => 0 <= a <= 1) bits -> 0 <= vt -> (2 * Z.to_nat vt < fuel)%nat -> (mf < fuel)%nat ->
   Coder.encode bits acc v true vt sh mf = Raise e ->
-  run_fun ce fuel encode_def [... same arguments ...] = Exn e.
+  run_fun ce fuel encode_def [varr bits; varr2 acc; VInt v; VBool true; VInt vt; v_table sh; VBool false; VBool verbose]
+  = Exn e.
+Proof.
+  intros ce fuel bits acc v vt sh verbose mf e _ Hset Hacc Hv Hsh _ Hvt Hf Hmf HR.
+  pose proof (encode_fast_gen_both ce fuel bits acc v vt sh verbose mf Hset Hacc Hv Hsh Hvt Hf Hmf) as H.
+  rewrite HR in H. exact H.
+Qed.
 
-   Notes: the while loop `while location < len(binary_message)` corresponds to Coder.encode_fast, whose list argument is the
-   suffix of the bit list from `location` on (invariant: bits = done ++ rest, location = length done, except that after the
-   last step at a 4-way vertex with one bit left location = length bits + 1 and rest = []: state the invariant as
-   rest = skipn location bits).  One model fuel unit per iteration; MiniPy's while_loop needs one more unit than iterations
-   (mf < fuel).  `where(accessor[vertex_index] >= 0)[0]` is varr (used_indices row); radix 4 / 2 / 1 / 3 / 0 are the branches;
-   shuffles[vertex_index, used_indices] is the fancy index (pick srow used), argsort needs distinct keys (table_shape gives NoDup
-   rows) and is Py.argsort.  The tail (set_vt, result pair) is as in normal mode.  If you need an extra hypothesis add the
-   weakest one and report it.  If time is short, prove encode_fast_gen_ok first.
-*)
+Print Assumptions encode_fast_gen_ok.
+Print Assumptions encode_fast_gen_raise.
